@@ -423,3 +423,58 @@ def r18_mut_self(src):
         pos = b
     out.append(src[pos:])
     return ''.join(out), 1
+
+
+def r15_lower_for(src, body_open_byte=0):
+    """R15 (with R12/R14 folded in): `for X in E.iter() BODY` / `for X in &E BODY`  ->
+       `{ let __vK = &E; let mut __iK: usize = 0; while __iK < __vK.len() { let X = &__vK[__iK]; __iK = __iK + 1; BODY } }`
+    K = ordinal of the loop among ALL loops of the function (source order).  Semantics preserving for iteration over a
+    Vec/slice by reference (a temporary in E lives as long as the new block).  Returns (src, [K...] lowered)."""
+    st = sig(lex(src))
+    edits = []
+    lowered = []
+    k = 0
+    for i, t in enumerate(st):
+        if t.start <= body_open_byte:
+            continue
+        if not (t.kind == 'id' and t.text in ('for', 'while', 'loop')):
+            continue
+        if t.text == 'for' and i + 1 < len(st) and st[i + 1].text == '<':
+            continue
+        k += 1
+        if t.text != 'for':
+            continue
+        # pattern: single identifier
+        if not (st[i + 1].kind == 'id' and st[i + 2].kind == 'id' and st[i + 2].text == 'in'):
+            continue
+        x = st[i + 1].text
+        j = i + 3
+        e0 = j
+        while j < len(st) and not (st[j].kind == 'p' and st[j].text == '{'):
+            if st[j].kind == 'p' and st[j].text in ('(', '['):
+                j = match_close(st, j)
+            j += 1
+        if j >= len(st):
+            continue
+        bo = j
+        bc = match_close(st, bo)
+        expr_toks = st[e0:bo]
+        if len(expr_toks) >= 4 and [u.text for u in expr_toks[-4:]] == ['.', 'iter', '(', ')']:
+            e_text = src[expr_toks[0].start:expr_toks[-5].end]
+        elif expr_toks and expr_toks[0].kind == 'p' and expr_toks[0].text == '&' and not (len(expr_toks) > 1 and expr_toks[1].text == 'mut'):
+            e_text = src[expr_toks[1].start:expr_toks[-1].end]
+        else:
+            continue
+        hdr_old = src[t.start:st[bo].end]
+        hdr_new = (f'{{ let __v{k} = &{e_text}; let mut __i{k}: usize = 0; while __i{k} < __v{k}.len() {{'
+                   f' let {x} = &__v{k}[__i{k}]; __i{k} = __i{k} + 1;')
+        edits.append((t.start, st[bo].end, _keep_newlines(hdr_old, hdr_new)))
+        edits.append((st[bc].end, st[bc].end, ' }'))
+        lowered.append(k)
+    out, pos = [], 0
+    for a, b, rep in sorted(edits):
+        out.append(src[pos:a])
+        out.append(rep)
+        pos = b
+    out.append(src[pos:])
+    return ''.join(out), lowered
